@@ -1035,8 +1035,8 @@ fn case_strategy(max_len: usize, skewed: bool) -> impl Strategy<Value = Case> {
 }
 
 fn run_st_random(ctx: &Ctx) {
-    ctx.run_prop("st-random-short", ctx.tier.pick(60_000, 1_000_000), || case_strategy(14, false), check_st);
-    ctx.run_prop("st-random-long", ctx.tier.pick(40_000, 600_000), || case_strategy(60, false), check_st);
+    ctx.run_prop("st-random-short", ctx.tier.pick(150_000, 1_000_000), || case_strategy(14, false), check_st);
+    ctx.run_prop("st-random-long", ctx.tier.pick(100_000, 600_000), || case_strategy(60, false), check_st);
 }
 
 // ---------------------------------------------------------------------------------------------
@@ -1306,8 +1306,8 @@ fn run_mt_tier(ctx: &Ctx) {
     }
     // fixed work; the override exists only for the sensitivity runs described in notes/C20.md
     let scale = |n: u32| std::env::var("C20_MT_CASES").ok().and_then(|s| s.parse().ok()).unwrap_or(n);
-    ctx.run_prop("mt-shaped", scale(60_000), mt_shaped_strategy, check_mt);
-    ctx.run_prop("mt-random", scale(40_000), || case_strategy(30, true), check_mt);
+    ctx.run_prop("mt-shaped", scale(40_000), mt_shaped_strategy, check_mt);
+    ctx.run_prop("mt-random", scale(20_000), || case_strategy(30, true), check_mt);
     for m in MT_INCONCLUSIVE.lock().unwrap().iter().take(5) {
         ctx.inconclusive(m.clone());
     }
